@@ -692,7 +692,17 @@ class Engine:
             self.st.env[name] = v.t[1]
 
     def st_With(self, s):
-        # only context managers declared in the contract's externals as 'with:<dotted>' are accepted
+        if len(s.items) == 1 and isinstance(s.items[0].context_expr, ast.Call) and isinstance(s.items[0].context_expr.func, ast.Attribute):
+            call = s.items[0].context_expr
+            try:
+                recv = self.ev(call.func.value)
+            except OutOfReach:
+                recv = None
+            if recv is not None and recv.k == "obj":
+                im = self.reg.class_inline(recv.cls, call.func.attr)
+                if im is not None:
+                    return self._with_contextmanager(im, recv, call, s)
+        # otherwise only context managers declared in the contract's externals as 'with:<dotted>' are accepted
         for item in s.items:
             name = self.dotted(item.context_expr.func) if isinstance(item.context_expr, ast.Call) else self.dotted(item.context_expr)
             summ = self.c.externals.get("with:" + str(name))
@@ -701,6 +711,51 @@ class Engine:
             if item.optional_vars is not None:
                 self.assign(item.optional_vars, self.ext_result(summ, name))
         self.exec_block(s.body)
+
+    def _with_contextmanager(self, spec, recv: V, call: ast.Call, s):
+        """`with obj.cm(args):` where cm is a @contextlib.contextmanager generator of the real class with the shape
+        `<stmts>; try: <stmts>; yield; finally: <stmts>`: the enter part, the with-body and the exit part are executed in order, the
+        exit part on every way out of the body."""
+        from .extract import extract
+        relpath, qual = spec
+        x = extract(relpath, qual)
+        self.inlined[(relpath, qual)] = x.sha256
+        fdef = x.node
+        trys = [st_ for st_ in fdef.body if isinstance(st_, ast.Try)]
+        if len(trys) != 1 or trys[0].handlers or not trys[0].finalbody:
+            raise OutOfReach(f"context manager {qual}: unsupported shape")
+        tr = trys[0]
+        if not (isinstance(tr.body[-1], ast.Expr) and isinstance(tr.body[-1].value, ast.Yield) and tr.body[-1].value.value is None):
+            raise OutOfReach(f"context manager {qual}: unsupported shape")
+        params = [a.arg for a in fdef.args.args]
+        env = {params[0]: recv}
+        for p_, a in zip(params[1:], call.args):
+            env[p_] = self.ev(a)
+        for k in call.keywords:
+            env[k.arg] = self.ev(k.value)
+        outer_env, outer_x = self.st.env, self.x
+        self.x = x
+        try:
+            for p_, d_ in zip(params[len(params) - len(fdef.args.defaults):], fdef.args.defaults):
+                if p_ not in env:
+                    env[p_] = self.ev(d_)
+        finally:
+            self.x = outer_x
+
+        def in_cm(stmts):
+            self.st.env, self.x = env, x
+            try:
+                self.exec_block(stmts)
+            finally:
+                self.st.env, self.x = outer_env, outer_x
+        pre = fdef.body[:fdef.body.index(tr)]
+        in_cm(pre + tr.body[:-1])
+        try:
+            self.exec_block(s.body)
+        except (PyRaise, _Return, _Break, _Continue):
+            in_cm(tr.finalbody)
+            raise
+        in_cm(tr.finalbody)
 
     def _trivial_catch_all(self, s) -> bool:
         if s.orelse or s.finalbody or len(s.handlers) != 1:
@@ -2199,9 +2254,14 @@ class Engine:
         for k, v in kw.items():
             env[k] = v
         defaults = fdef.args.defaults
-        for p_, d in zip(rest[len(rest) - len(defaults):], defaults):
-            if p_ not in env:
-                env[p_] = self.ev(d)
+        saved_x0 = self.x
+        self.x = x            # default expressions are evaluated in the defining module's namespace
+        try:
+            for p_, d in zip(rest[len(rest) - len(defaults):], defaults):
+                if p_ not in env:
+                    env[p_] = self.ev(d)
+        finally:
+            self.x = saved_x0
         missing = [p_ for p_ in rest if p_ not in env]
         if missing:
             raise OutOfReach(f"inline {qual}: missing {missing}")
@@ -2406,6 +2466,10 @@ class Engine:
             d = f"{recv.cls}.{meth}"
             if d in self.c.externals:
                 return self.ext_call(self.c.externals[d], d, n, recv)
+            for fc in self.reg.fns.values():
+                if fc.cls is None and fc.qualname == f"{recv.cls}.{meth}" and not fc.source:
+                    # a @staticmethod under contract, called through the instance
+                    return self.contract_call(fc, None, [self.ev(a) for a in n.args], n, {k.arg: self.ev(k.value) for k in n.keywords})
         if recv.k in ("opaque", "opt", "none") and f"*.{meth}" in self.c.externals:
             if recv.k in ("opt", "none") and not self.spec_mode:
                 isnone = recv.t[0] if recv.k == "opt" else z3.BoolVal(True)
